@@ -664,9 +664,9 @@ Print Assumptions C09_canonicalise_fails_iff.
        * independence, back-end wl: proved under the STRONGER hypothesis "pairwise distinct WL colours" (theorems named
          _distinct_colours) and REFUTED under the text's hypothesis: C09_numbering_independent_wl_refuted (known finding
          wl-tied-colours-distinguishable: distinguishable atoms that share their WL colour are ordered by the input numbering);
-       * fixed point: the text puts NO condition on it.  wl: proved without any condition on the colours for the canonical graphs
-         themselves as second input (C09_fixed_point_wl, also with tied colours), and for every parsed presentation of them /
-         the string level under distinct colours (_distinct_colours).  nauty: proved for rigid reactant graphs (_rigid); on
+       * fixed point: the text puts NO condition on it.  wl: proved without any condition on the colours (tied colours
+         included) for every parsed presentation of the canonical graphs and at string level (C09_fixed_point_wl,
+         C09_canonical_rsmi_fixed_point_wl).  nauty: proved for rigid reactant graphs (_rigid); on
          reactant graphs with automorphisms the clause is ORACLE ONLY (checked unconditionally on every canonicaliser case:
          canon-fixed-point; it holds on all populations).
        Vocabulary (proof/C09_Graph.v, proof/C09_Backends.v):
@@ -804,18 +804,33 @@ Print Assumptions C09_numbering_independent_wl_refuted.
 (** fixed point for back-end wl WITHOUT the hypothesis of distinct colours (audit finding 2): after the first run the node ids
     of the canonical reactant graph ARE the positions in the (colour, degree, id) order, so - when the colours of the second
     run correspond (networkx contract: premise) - the second stable sort is the identity also with TIED colours (a sorted list
-    is a fixed point of the sort).  Graph level, the canonical graphs themselves as second input (bonds in the same order);
-    together with C09_canon_wl_is_relabelling this is the text's unconditional fixed-point clause for wl up to the RDKit
-    round trip.  For nauty on graphs with automorphisms the clause stays oracle-only. *)
-Theorem C09_fixed_point_wl : forall (ranks1 ranks2 : list (N * Z)) (G H : mgraph),
+    is a fixed point of the sort), and since the sort key (colour, degree, id) is total on distinct ids the order does not
+    depend on how the atoms / bonds of the re-parsed graph are listed: the statement holds for EVERY parsed presentation of
+    the canonical graphs.  This is the text's unconditional fixed-point clause for wl (the theorems _distinct_colours above are
+    special cases).  For nauty on graphs with automorphisms the clause stays oracle-only. *)
+Theorem C09_fixed_point_wl : forall (ranks1 : list (N * Z)) (G H : mgraph),
   parsed G -> parsed H -> (exists s, In s (node_ids G) /\ In s (node_ids H)) ->
-  (forall n, In n (node_ids G) -> C08_Model.rank_of ranks2 (sigma_of (wl_order ranks1 G) n) = C08_Model.rank_of ranks1 n) ->
   exists (pairs1 : list (N * N)) (Gc1 Hc1 : mgraph),
     canonicalise_wl ranks1 G H = Some (Gc1, pairs1, Hc1) /\
-    exists (pairs2 : list (N * N)) (Gc2 Hc2 : mgraph),
-      canonicalise_wl ranks2 Gc1 Hc1 = Some (Gc2, pairs2, Hc2) /\ same_upto_order Gc2 Gc1 /\ same_upto_order Hc2 Hc1.
-Proof. exact fixed_point_wl_ties. Qed.
+    forall (ranks2 : list (N * Z)) (G' H' : mgraph), parsed G' -> parsed H' -> same_graph G' Gc1 -> same_graph H' Hc1 ->
+      (forall n, In n (node_ids G) -> C08_Model.rank_of ranks2 (sigma_of (wl_order ranks1 G) n) = C08_Model.rank_of ranks1 n) ->
+      exists (pairs2 : list (N * N)) (Gc2 Hc2 : mgraph),
+        canonicalise_wl ranks2 G' H' = Some (Gc2, pairs2, Hc2) /\ same_graph Gc2 Gc1 /\ same_graph Hc2 Hc1.
+Proof. exact fixed_point_wl_ties_sg. Qed.
 Print Assumptions C09_fixed_point_wl.
+
+(** ... and at string level: CanonRSMI(backend="wl").canonical_rsmi is a fixed point - tied colours included - relative to the
+    two RDKit contracts and the correspondence of the colours of the second run (networkx) *)
+Theorem C09_canonical_rsmi_fixed_point_wl : forall (W : mgraph -> str) (P : str -> option (mgraph * mgraph)) (ranks1 : list (N * Z)) (G H : mgraph),
+  writer_ok W ->
+  parsed G -> parsed H -> (exists s, In s (node_ids G) /\ In s (node_ids H)) ->
+  (forall Gc1 pairs1 Hc1, canonicalise_wl ranks1 G H = Some (Gc1, pairs1, Hc1) -> reads_back W P Gc1 Hc1) ->
+  exists s G' H', canonical_rsmi W (canonicalise_wl ranks1 G H) = Some s /\ P s = Some (G', H') /\
+    forall ranks2 : list (N * Z),
+      (forall n, In n (node_ids G) -> C08_Model.rank_of ranks2 (sigma_of (wl_order ranks1 G) n) = C08_Model.rank_of ranks1 n) ->
+      canonical_rsmi W (canonicalise_wl ranks2 G' H') = Some s.
+Proof. exact canonical_rsmi_fixed_point_wl_ties. Qed.
+Print Assumptions C09_canonical_rsmi_fixed_point_wl.
 
 (** the canonical graphs are parsed graphs themselves (distinct positive ids, atom_map = id), for every canonical order *)
 Theorem C09_canonical_graphs_parsed : forall (G H Gc1 : mgraph) (order1 : list N),
